@@ -17,7 +17,7 @@ _AST_CACHE = {}   # sha1 of source -> parsed tree (trees are never mutated by th
 
 
 class Module:
-    def __init__(self, name, path, relpath, source):
+    def __init__(self, name, path, relpath, source, form='raw', helpers=None, functions=None):
         self.name = name            # 'nutils.evaluable'
         self.short = name.split('.', 1)[1] if '.' in name else name  # 'evaluable', 'matrix._base'
         self.path = path
@@ -27,7 +27,14 @@ class Module:
         tree = _AST_CACHE.get(self.sha1)
         if tree is None:
             tree = _AST_CACHE[self.sha1] = ast.parse(source, filename=path)
+        if form != 'raw':   # a behaviour-preserving normal form of the same source (sa/normalize.py); positions are those of the source
+            key = (self.sha1, form, helpers, functions)
+            if key not in _AST_CACHE:
+                from .normalize import normalize
+                _AST_CACHE[key] = normalize(tree, form, source, path, helpers, functions)
+            tree = _AST_CACHE[key]
         self.tree = tree
+        self.form = form
         self.imports = {}           # local name -> dotted target
         self.classes = {}           # name -> ClassInfo (top level)
         self.functions = {}         # name -> FuncInfo (top level defs and name = lambda)
@@ -99,7 +106,11 @@ class ClassInfo:
 
 
 class Model:
-    def __init__(self, root='/repo', package='nutils'):
+    def __init__(self, root='/repo', package='nutils', form='raw', only_modules=None, helpers=None, only_functions=None):
+        self.form = form                    # normal form (sa/normalize.py) of the modules named in only_modules (all when None)
+        self.only_modules = only_modules
+        self.only_functions = only_functions    # {module short name: frozenset of qualnames} to rewrite (whole module when absent)
+        self.helpers = helpers
         self.root = os.path.abspath(root)
         self.pkgdir = os.path.join(self.root, 'src', package)
         if not os.path.isdir(self.pkgdir):
@@ -129,7 +140,9 @@ class Model:
                 with open(path, encoding='utf-8') as f:
                     source = f.read()
                 try:
-                    m = Module(name, path, rel, source)
+                    short = name.split('.', 1)[1] if '.' in name else name
+                    form = self.form if self.only_modules is None or short in self.only_modules else 'raw'
+                    m = Module(name, path, rel, source, form, self.helpers, (self.only_functions or {}).get(short))
                 except SyntaxError as e:
                     raise AnalysisError(f'{rel} does not parse: {e}')
                 self.modules[m.short] = m
